@@ -31,22 +31,51 @@ LOCSRC   == "local"
 Kind(p)  == PInfo[p].kind
 IsIBGPKind(k) == k \in {"ibgp", "rrc"}
 
-VARIABLES up, inr, loc
-pvars == <<up, inr, loc>>
+VARIABLES up, inr, loc,
+          impPol,   \* import policy currently configured (global table)
+          expPol,   \* export policy currently configured
+          inrPol,   \* inrPol[p][x]: import policy under which inr[p][x] was last evaluated
+          expEff    \* expEff[p]: export policy in force at p's last full (re-)advertisement
+polvars == <<impPol, expPol, inrPol, expEff>>
+pvars == <<up, inr, loc, impPol, expPol, inrPol, expEff>>
+
+(* the closed policy family of C15 (all conditions are on prefix "x1"):
+   acc = accept everything, rejx1 = reject x1, medx1 = set MED 77 on x1, ppx1 = prepend 65099 twice *)
+Pols == {"acc", "rejx1", "medx1", "ppx1"}
 
 PInit == /\ up  = [p \in Peers |-> FALSE]
          /\ inr = [p \in Peers |-> [x \in Prefixes |-> NoRoute]]
          /\ loc = [x \in Prefixes |-> NoRoute]
+         /\ impPol = "acc" /\ expPol = "acc"
+         /\ inrPol = [p \in Peers |-> [x \in Prefixes |-> "acc"]]
+         /\ expEff = [p \in Peers |-> "acc"]
 
 ---------------------------------------------------------------------------
 (* inputs *)
-PUp(p)        == ~up[p] /\ up' = [up EXCEPT ![p] = TRUE] /\ UNCHANGED <<inr, loc>>
+PUp(p)        == ~up[p] /\ up' = [up EXCEPT ![p] = TRUE] /\ expEff' = [expEff EXCEPT ![p] = expPol]
+                 /\ UNCHANGED <<inr, loc, impPol, expPol, inrPol>>
 PDown(p)      == up[p] /\ up' = [up EXCEPT ![p] = FALSE]
-                 /\ inr' = [inr EXCEPT ![p] = [x \in Prefixes |-> NoRoute]] /\ UNCHANGED loc
-PAnn(p, x, r) == up[p] /\ inr' = [inr EXCEPT ![p][x] = r] /\ UNCHANGED <<up, loc>>
-PWd(p, x)     == up[p] /\ inr' = [inr EXCEPT ![p][x] = NoRoute] /\ UNCHANGED <<up, loc>>
-PApiAdd(x, r) == loc' = [loc EXCEPT ![x] = r] /\ UNCHANGED <<up, inr>>
-PApiDel(x)    == loc' = [loc EXCEPT ![x] = NoRoute] /\ UNCHANGED <<up, inr>>
+                 /\ inr' = [inr EXCEPT ![p] = [x \in Prefixes |-> NoRoute]] /\ UNCHANGED <<loc, polvars>>
+PAnn(p, x, r) == up[p] /\ inr' = [inr EXCEPT ![p][x] = r] /\ inrPol' = [inrPol EXCEPT ![p][x] = impPol]
+                 /\ UNCHANGED <<up, loc, impPol, expPol, expEff>>
+PWd(p, x)     == up[p] /\ inr' = [inr EXCEPT ![p][x] = NoRoute] /\ UNCHANGED <<up, loc, polvars>>
+PApiAdd(x, r) == loc' = [loc EXCEPT ![x] = r] /\ UNCHANGED <<up, inr, polvars>>
+PApiDel(x)    == loc' = [loc EXCEPT ![x] = NoRoute] /\ UNCHANGED <<up, inr, polvars>>
+
+(* policy changes and the matching soft resets (C15).  T = set of targeted neighbours. *)
+PSetImp(pol)   == impPol' = pol /\ UNCHANGED <<up, inr, loc, expPol, inrPol, expEff>>
+PSetExp(pol)   == expPol' = pol /\ UNCHANGED <<up, inr, loc, impPol, inrPol, expEff>>
+PResetIn(T)    == /\ inrPol' = [p \in Peers |-> IF p \in T /\ up[p] THEN [x \in Prefixes |-> impPol] ELSE inrPol[p]]
+                  /\ UNCHANGED <<up, inr, loc, impPol, expPol, expEff>>
+PResetOut(T)   == /\ expEff' = [p \in Peers |-> IF p \in T /\ up[p] THEN expPol ELSE expEff[p]]
+                  /\ UNCHANGED <<up, inr, loc, impPol, expPol, inrPol>>
+PResetBoth(T)  == /\ inrPol' = [p \in Peers |-> IF p \in T /\ up[p] THEN [x \in Prefixes |-> impPol] ELSE inrPol[p]]
+                  /\ expEff' = [p \in Peers |-> IF p \in T /\ up[p] THEN expPol ELSE expEff[p]]
+                  /\ UNCHANGED <<up, inr, loc, impPol, expPol>>
+
+(* everything stored / advertised has been evaluated under the policy configured NOW *)
+CleanIn     == \A p \in Peers : \A x \in Prefixes : inr[p][x] # NoRoute => inrPol[p][x] = impPol
+CleanOut(p) == expEff[p] = expPol
 
 ---------------------------------------------------------------------------
 (* what the RIBs must hold *)
@@ -59,9 +88,18 @@ Usable(r) == r # NoRoute /\ ~r.loop
 (* LOCAL_PREF is only meaningful from internal neighbours; default 100 *)
 EffLp(r) == IF r.src # LOCSRC /\ IsIBGPKind(Kind(r.src)) /\ r.lp # -1 THEN r.lp ELSE 100
 
-AsLen(r) == r.len
+AsLen(r) == r.len + r.pp
 
-LocRibExpected(x) == {inr[p][x] : p \in {q \in Peers : Usable(inr[q][x])}}
+(* import policy applied to a received route (evaluated when it arrived / at the last soft reset in) *)
+ImpApply(pol, x, r) ==
+  IF x # "x1" \/ pol = "acc" THEN r
+  ELSE CASE pol = "rejx1" -> NoRoute
+         [] pol = "medx1" -> [r EXCEPT !.med = 77]
+         [] pol = "ppx1"  -> [r EXCEPT !.pp = 2]
+
+Imported(p, x) == ImpApply(inrPol[p][x], x, inr[p][x])
+
+LocRibExpected(x) == {Imported(p, x) : p \in {q \in Peers : Usable(inr[q][x]) /\ Imported(q, x) # NoRoute}}
                      \cup (IF loc[x] # NoRoute THEN {loc[x]} ELSE {})
 
 (* the decision process restricted to what this model varies: LOCAL_PREF, local origin,
@@ -86,9 +124,11 @@ FirstAS(r) == IF r.src = LOCSRC THEN 0
               ELSE IF Kind(r.src) \in {"ebgp", "rs"} THEN PInfo[r.src].as ELSE 64700 + PInfo[r.src].idx
 Filler(r)  == [i \in 1..(r.len - 1 - (IF r.via # 0 THEN 1 ELSE 0) - (IF r.loop THEN 1 ELSE 0))
                  |-> 64800 + 10 * PInfo[r.src].idx + i]
-AsPath(r)  == IF r.src = LOCSRC THEN <<>>
-              ELSE <<FirstAS(r)>> \o Filler(r) \o (IF r.via # 0 THEN <<r.via>> ELSE <<>>)
-                   \o (IF r.loop THEN <<LocalAS>> ELSE <<>>)
+Prep(n)    == [i \in 1..n |-> 65099]
+AsPath(r)  == Prep(r.pp) \o
+              (IF r.src = LOCSRC THEN <<>>
+               ELSE <<FirstAS(r)>> \o Filler(r) \o (IF r.via # 0 THEN <<r.via>> ELSE <<>>)
+                    \o (IF r.loop THEN <<LocalAS>> ELSE <<>>))
 InPath(as, r) == \E i \in 1..Len(AsPath(r)) : AsPath(r)[i] = as
 
 (* never back to the router it came from; not to an eBGP neighbour whose AS is in the path;
@@ -113,10 +153,17 @@ Exp(b, p) ==
           med |-> b.med, lp |-> EffLp(b),
           origid |-> IF b.src = LOCSRC THEN "self" ELSE b.src, clist |-> 1]
 
+(* export policy applied to the exported form *)
+ExpApply(pol, x, e) ==
+  IF x # "x1" \/ pol = "acc" THEN e
+  ELSE CASE pol = "rejx1" -> NoRoute
+         [] pol = "medx1" -> [e EXCEPT !.med = 77]
+         [] pol = "ppx1"  -> [e EXCEPT !.aspath = Prep(2) \o @]
+
 ExportOf(p, x) ==
   LET S == LocRibExpected(x) IN
     IF S = {} THEN NoRoute
-    ELSE LET b == BestOf(S) IN IF MayAdvertise(b, p) THEN Exp(b, p) ELSE NoRoute
+    ELSE LET b == BestOf(S) IN IF MayAdvertise(b, p) THEN ExpApply(expPol, x, Exp(b, p)) ELSE NoRoute
 
 ExportView(p) == [x \in Prefixes |-> ExportOf(p, x)]
 =============================================================================
